@@ -146,6 +146,9 @@ def finish(ctx: Ctx, level: str = "model_checking") -> int:
         print(f"KNOWN-FINDING: property={ctx.prop} {k['what']} ({len(vs)} occurrence(s) this run)")
     rc = 0
     (VERIF / "replays").mkdir(exist_ok=True)
+    if not getattr(ctx, "is_replay", False):
+        for old in (VERIF / "replays").glob(f"{ctx.prop}-*.json"):
+            old.unlink()
     seen = set()
     for v in unlisted:
         if v.signature in seen:
